@@ -126,7 +126,9 @@ CHECKS["C14"] = dict(
          "the six positions, re-checked from the regenerated tables). Tied by the exhaustive k/10 (|k|<=100000), k/100, "
          "k/1000 sweeps, integers, Decimal-typed values and sampled magnitudes through the real validation and to_json, and by "
          "the model on a stratified sample in all six positions; also through the 1.6 data-type classes, with an endpoint "
-         "constructed before the first validation (fresh interpreter), and on the binary neighbours of one-decimal numbers. "
+         "constructed before the first validation (fresh interpreter), on the binary neighbours of one-decimal numbers, and "
+         "with the application's decimal context (current and DefaultContext) set to low precision / other rounding -- verdict "
+         "and written digits. "
          "C14_decimal_path_is_retag: the Decimal re-parse of _validate_payload (dumps, then loads with parse_float=Decimal) is "
          "proved at the text level to hand back every float as the Decimal with the digits of its repr.",
     note="Trusted: Coq kernel + VM, translator; CPython float repr / decimal / '%.1f' formatting are modelled (a float is its "
